@@ -206,7 +206,7 @@ fn main() {
         // ---- hand-written FDT without FEC-OTI attributes: the writer is created inside push()
         let fecs: [u8; 4] = [0, 5, 129, 6];
         let lens: [usize; 4] = [0, 1, 16, 40];
-        let n2 = fecs.len() * lens.len() * n_scripts * 6 * 3;
+        let n2 = fecs.len() * lens.len() * n_scripts * 6 * 4;
         gens.push(Gen::new("fdt_without_oti", n2, move |ctx, i| {
             let fec = fecs[i % fecs.len()];
             let len = lens[(i / fecs.len()) % lens.len()];
@@ -216,14 +216,22 @@ fn main() {
             // 3 reverse order, FTI on the last packet pushed; 4 every packet first without then with FTI; 5 in order, FTI on the last
             let variant = (i / (fecs.len() * lens.len() * n_scripts)) % 6;
             // announced Content-Length vs real length (null encoding): equal, larger, smaller
-            let cl_delta: i64 = [0i64, 5, -1][(i / (fecs.len() * lens.len() * n_scripts * 6)) % 3];
+            let cl_mode = (i / (fecs.len() * lens.len() * n_scripts * 6)) % 4;
+            let cl_delta: i64 = [0i64, 5, -1, 0][cl_mode];
+            // fourth mode: the File element carries neither Content-Length nor Content-MD5 (both are optional): the
+            // content is whatever the Transfer-Length bytes decode to
+            let cl_absent = cl_mode == 3;
             let mut rng = Rng::keyed(ctx.seed, "C09b", 0, i as u64);
-            let content_bytes = rng.bytes(len);
+            let mut content_bytes = rng.bytes(len);
             // one case in three (orders 0-2, non-empty objects): the object travels content-encoded; Content-Length and
             // Content-MD5 speak of the decoded content, Transfer-Length of what is on the wire
             let cenc = if variant <= 2 && len > 0 && i % 3 == 1 { [CencSpec::Gzip, CencSpec::Zlib, CencSpec::Deflate][(i / 3) % 3] } else { CencSpec::Null };
+            if cenc != CencSpec::Null && (cl_absent || i % 2 == 0) {
+                // content that really compresses (the encoded form is shorter than the content)
+                content_bytes = (0..len * 9).map(|k| b"flute "[k % 6]).collect();
+            }
             let data = vh::session::deflate(cenc, &content_bytes);
-            let content_len = len;
+            let content_len = content_bytes.len();
             let len = data.len();
             let e = 8usize;
             let b = if variant >= 3 { 1usize } else { 4usize };
@@ -232,8 +240,9 @@ fn main() {
             let tsi = 3;
             let md5 = vh::session::md5_b64(&content_bytes);
             let xml = format!(
-                "<?xml version=\"1.0\" encoding=\"UTF-8\"?>\n<FDT-Instance xmlns=\"urn:IETF:metadata:2005:FLUTE:FDT\" Expires=\"{}\"><File TOI=\"{}\" Content-Location=\"file:///h/x.bin\" Content-Length=\"{}\" Transfer-Length=\"{}\" Content-MD5=\"{}\"{}/></FDT-Instance>",
-                expires_in(3600), toi, (content_len as i64 + cl_delta).max(0), len, md5,
+                "<?xml version=\"1.0\" encoding=\"UTF-8\"?>\n<FDT-Instance xmlns=\"urn:IETF:metadata:2005:FLUTE:FDT\" Expires=\"{}\"><File TOI=\"{}\" Content-Location=\"file:///h/x.bin\"{} Transfer-Length=\"{}\"{}{}/></FDT-Instance>",
+                expires_in(3600), toi, if cl_absent { String::new() } else { format!(" Content-Length=\"{}\"", (content_len as i64 + cl_delta).max(0)) }, len,
+                if cl_absent { String::new() } else { format!(" Content-MD5=\"{}\"", md5) },
                 if cenc == CencSpec::Null { String::new() } else { format!(" Content-Encoding=\"{}\"", cenc.name()) });
             let fdt = wrap_fdt(xml.as_bytes(), tsi, 5, 1400, None, true);
             // object packets with in-band FTI built by the independent encoder (source symbols only)
@@ -309,7 +318,7 @@ fn main() {
             let mut nw = 0u64;
             for d in (0..=pk.len()).rev() {
                 let drop_after = if d == pk.len() { None } else { Some(d) };
-                let desc = || json!({"fdt_without_oti": true, "fec": fec, "len": content_len, "cenc": cenc.name(), "script": sname, "variant": variant, "drop_after": drop_after,
+                let desc = || json!({"fdt_without_oti": true, "fec": fec, "len": content_len, "cenc": cenc.name(), "content_length_and_md5_absent": cl_absent, "script": sname, "variant": variant, "drop_after": drop_after,
                     "packets": pk.iter().map(|(b, _)| util::hex(&b[..b.len().min(120)])).collect::<Vec<_>>()});
                 match run_history(&ep, &pk, &script, drop_after, true) {
                     Ok(rx) => {
@@ -328,7 +337,7 @@ fn main() {
             cr.count("histories", pk.len() as u64 + 1);
             cr.count("writers", nw);
             if nw > 0 {
-                cr.shape = Some(util::fnv(&format!("noOTI|{}|{}|{}|{}|{}|{}", fec, content_len, sname, variant, cl_delta, cenc.name())));
+                cr.shape = Some(util::fnv(&format!("noOTI|{}|{}|{}|{}|{}|{}", fec, content_len, sname, variant, cl_mode, cenc.name())));
             }
             if i % 29 == 0 {
                 cr.sample = Some(json!({"fec": fec, "len": len, "script": sname, "variant": variant, "writers": nw, "xml": xml}));
